@@ -556,6 +556,8 @@ def _schema_freeze_hook(ex, st, cls: str, ident: Any) -> None:
     ct = ex.ct
     w = z3.Const("uv", Obj)
     st.assume(S.wf(ident) == z3.And(*S.wf_def(ct, cls, ident)),
+              S.reach(ident) == z3.And(*S.reach_def(ct, cls, ident)),
+              S.conforms(ident, M.NoneV) == S.conforms_def(ct, cls, ident, M.NoneV),   # a ground instance
               z3.ForAll([w], S.conforms(ident, w) == S.conforms_def(ct, cls, ident, w),
                         patterns=[S.conforms(ident, w)]))
 
